@@ -257,14 +257,19 @@ def run(prog, ctx):
         if s.kind == "plain":
             t = tma.term(s.value)
             guards = [g for (g, gn) in R.dominating_guards(ar, R.cfg_node(ar, s.stmt), tma) if gn.kind == "test"]
+            key_t = dict(t[3]).get("key") if t[0] == "call" else None
+            by_start = key_t in (("call", ("n", "attrgetter"), (("c", "'start'"),), ()), ("call", ("a", ("n", "operator"), "attrgetter"), (("c", "'start'"),), ()),
+                                 ("lambda", 1, ("a", ("bv", "$0"), "start")))
+            rev = dict(t[3]).get("reverse") if t[0] == "call" else None
             if t[0] == "call" and t[1] == ("n", "sorted") and t[2] and t[2][0] == ("a", ("n", "self"), "refinementObjects") \
-                    and dict(t[3]).get("key") == ("call", ("n", "attrgetter"), (("c", "'start'"),), ()) and ("n", ar.params[1]) in guards \
-                    and "reverse" not in dict(t[3]):
+                    and by_start and ("n", ar.params[1]) in guards and rev in (None, ("c", "False")):
                 sorted_ok = True
     for x in R.calls_in(ar.node, method="sort"):
         if R.self_attr(x.func.value, "self") == "refinementObjects":
             kws = {k.arg: k.value for k in x.keywords}
-            if "key" in kws and "reverse" not in kws:
+            kt = tma.term(kws["key"]) if "key" in kws else None
+            if kt in (("call", ("n", "attrgetter"), (("c", "'start'"),), ()), ("lambda", 1, ("a", ("bv", "$0"), "start"))) \
+                    and ("reverse" not in kws or (isinstance(kws["reverse"], ast.Constant) and kws["reverse"].value is False)):
                 sorted_ok = True
     ctx.check(sorted_ok, "C03.D3", R.key_of(ar, "sorted-by-start"), ar.loc(),
               "with sort=True the objects are re-ordered ascending by `start`",
